@@ -120,9 +120,14 @@ class TorchNNPureFunction(PureFunction):
         # Every name is listed, also when one Parameter is registered under several
         # names (named_parameters() reports only the first of them), so that all
         # of them are substituted together; objparams() stays unique.
-        named_params = [(mname + ("." if mname else "") + pname, p)
+        # A parameter that is temporarily replaced by a plain tensor (this wrapper
+        # may be made while another one has substituted the module's tensors)
+        # keeps its slot in _parameters, holding None, and the tensor installed
+        # now is in the module's __dict__: it is still a parameter of the function.
+        named_params = [(mname + ("." if mname else "") + pname, m.__dict__.get(pname, p))
                         for mname, m in self.obj.named_modules(remove_duplicate=False)
-                        for pname, p in m._parameters.items() if p is not None]
+                        for pname, p in m._parameters.items()]
+        named_params = [(name, p) for (name, p) in named_params if p is not None]
         if len(named_params) == 0:
             paramnames: List[str] = []
             obj_params: List[Union[torch.Tensor, torch.nn.Parameter]] = []
